@@ -46,7 +46,8 @@ ASSUMPTIONS = [
     "sphere: lon in [-180,180], lat in [-90,90] (outside must raise); positivity asserted only when the true angular separation is >= 1e-6 deg; "
     "points identified on the sphere (lon +-180, any lon at a pole) need only be <= 1e-3 m apart; NaN coordinates are not generated",
     "triangle inequality up to the rounding of the formula: plane 4 eps (sum of sides); sphere 1e-6 m (scaled by R/6378137) + "
-    "min(32 eps R tan(d/2R), 2R sqrt(8 eps)) per side (haversine is ill-conditioned at the antipode, <= 0.55 m there)",
+    "min(32 eps R tan(s/2), 2R sqrt(8 eps)) per side, s = true angular separation from an independent vector formula (any arcsin-type "
+    "formula is ill-conditioned at the antipode, <= 0.55 m there)",
     "cell sizes are positive finite numbers; numeric radii lie in [1e-4, 1e16) so that str(radius) has no exponent (circle_kernel parses "
     "str(radius) and exponent notation is not part of its grammar); radius/cellsize <= 60 (quick) / 150 (thorough) to bound kernel memory",
     "annulus: inner radius <= outer radius is the domain; inner > outer is only required to raise or to return a non-negative kernel",
@@ -133,9 +134,11 @@ def _sep_rad(p, q):
     return math.atan2(math.sqrt(c[0] * c[0] + c[1] * c[1] + c[2] * c[2]), u[0] * v[0] + u[1] * v[1] + u[2] * v[2])
 
 
-def _gc_err(d, rad):
-    """Forward bound on the rounding of the haversine evaluation for a computed distance d (see ASSUMPTIONS)."""
-    th = min(max(d / (2 * rad), 0.0), math.pi / 2)
+def _gc_err(sep, rad):
+    """Forward bound on the rounding of an arcsin/haversine-type evaluation for two points whose TRUE separation is `sep`
+    radians (from the independent vector formula, not from the value under test): relative error 8 eps in sin^2(sep/2) gives
+    <= 4*8 eps R tan(sep/2), capped by 2R sqrt(8 eps) at the antipode; plus 1e-6 m (scaled) for the rounding of the inputs."""
+    th = min(max(sep / 2, 0.0), math.pi / 2)
     cap = 2 * rad * math.sqrt(8 * EPS)
     first = 32 * EPS * rad * math.tan(th) if th < math.pi / 2 else cap
     return 1e-6 * rad / R0 + min(first, cap)
@@ -154,7 +157,15 @@ def body_sphere(case, ctx):
         if rad is None:
             return float(f(p[0], q[0], p[1], q[1]))
         return float(f(p[0], q[0], p[1], q[1], radv))
-    d = [[call(pts[i], pts[j]) for j in range(n)] for i in range(n)]
+    d = [[None] * n for _ in range(n)]
+    for i in range(n):
+        for j in range(n):
+            try:
+                d[i][j] = call(pts[i], pts[j])
+            except ValueError as e:
+                return r.fail("great_circle.in_range_point_rejected", "great_circle_distance(x1=%r, x2=%r, y1=%r, y2=%r) raised %s" % (
+                    pts[i][0], pts[j][0], pts[i][1], pts[j][1], e))
+    err = [[_gc_err(_sep_rad(pts[i], pts[j]), radv) for j in range(n)] for i in range(n)]
     half = math.pi * radv
     distinct = False
     for i in range(n):
@@ -167,7 +178,7 @@ def body_sphere(case, ctx):
                 continue
             if v > half * (1 + 1e-12):
                 r.fail("great_circle.exceeds_half_circumference", "d(%r,%r)=%r > pi*R=%r" % (pts[i], pts[j], v, half))
-            if abs(v - d[j][i]) > _gc_err(v, radv):
+            if abs(v - d[j][i]) > err[i][j]:
                 r.fail("great_circle.asymmetric", "d(%r,%r)=%r but reversed %r" % (pts[i], pts[j], v, d[j][i]))
             if pts[i] == pts[j]:
                 if v != 0.0:
@@ -196,7 +207,7 @@ def body_sphere(case, ctx):
                 if len({i, j, k}) < 3:
                     continue
                 s = d[i][j] + d[j][k]
-                slack = _gc_err(d[i][k], radv) + _gc_err(d[i][j], radv) + _gc_err(d[j][k], radv) + 4 * EPS * (s + d[i][k])
+                slack = err[i][k] + err[i][j] + err[j][k] + 4 * EPS * (s + d[i][k])
                 if d[i][k] > s + slack:
                     r.fail("great_circle.triangle", "d(a,c)=%r > d(a,b)+d(b,c)=%r (excess %.3g m, slack %.3g) a=%r b=%r c=%r R=%r" % (
                         d[i][k], s, d[i][k] - s, slack, pts[i], pts[j], pts[k], radv))
@@ -445,8 +456,13 @@ def body_dist_str(case, ctx):
 
     if expect == "valid":
         m = intended()
-        r.label("str:unit=" + (case.get("unit", "").lower() or "none"))
-        v = _get_distance(s)
+        r.label("str:unit=" + (case.get("unit", "").lower().strip() or "none"))
+        try:
+            v = _get_distance(s)
+        except ValueError as e:
+            style = "lower" if case.get("unit", "") == case.get("unit", "").lower() else "has_upper_case"
+            return r.fail("string.valid_rejected(unit=%s,%s)" % (case.get("unit", "").lower().strip() or "none", style),
+                          "_get_distance(%r) raised ValueError(%s)" % (s, str(e)[:60]))
         if not close(v, m):
             r.fail("string.wrong_metres(unit=%s)" % (case.get("unit", "").lower() or "none"),
                    "_get_distance(%r) = %r, expected %s m" % (s, v, float(m)))
@@ -1095,26 +1111,26 @@ def shards(tier):
         out.append((name, run))
 
     for i in range(4 if th else 2):
-        hyp("plane_rand#%d" % i, body_plane, plane_cases(), 30000 if th else 2500)
+        hyp("plane_rand#%d" % i, body_plane, plane_cases(), 50000 if th else 3000)
     for i in range(6 if th else 3):
-        hyp("sphere_rand#%d" % i, body_sphere, sphere_cases(), 30000 if th else 2500)
+        hyp("sphere_rand#%d" % i, body_sphere, sphere_cases(), 40000 if th else 2500)
     enum("invalid_enum", body_sphere_invalid, invalid_enum, "out-of-range lon/lat: argument position x value x sign x base point")
     hyp("invalid_rand#0", body_sphere_invalid, invalid_cases(), 20000 if th else 2000)
     enum("circle_enum", body_circle, lambda: circle_enum(20 if th else 12),
          "circle_kernel half-widths (half_w, half_h) <= %d x realisations" % (20 if th else 12))
     for i in range(4 if th else 3):
-        hyp("circle_rand#%d" % i, body_circle, circle_cases(qmax), 12000 if th else 1200)
+        hyp("circle_rand#%d" % i, body_circle, circle_cases(qmax), 30000 if th else 2000)
     nb = 2
     for b in range(nb):
         enum("annulus_enum#%d" % b, body_annulus, lambda b=b: annulus_enum(b, nb, 48 if th else 24),
              "annulus outer/inner radii k/2 <= %d on 6 cell shapes, block %d/%d" % (24 if th else 12, b, nb))
     for i in range(4 if th else 2):
-        hyp("annulus_rand#%d" % i, body_annulus, annulus_cases(qmax), 10000 if th else 1000)
+        hyp("annulus_rand#%d" % i, body_annulus, annulus_cases(qmax), 20000 if th else 1500)
     enum("string_enum", body_dist_str, string_enum, "distance strings: numbers x unit spellings x case x blanks; negative and lenient tables")
     for i in range(2 if th else 1):
-        hyp("string_rand#%d" % i, body_dist_str, string_cases(), 30000 if th else 3000)
+        hyp("string_rand#%d" % i, body_dist_str, string_cases(), 60000 if th else 4000)
     for i in range(2 if th else 1):
-        hyp("cellsize_rand#%d" % i, body_cellsize, cellsize_cases(), 6000 if th else 600)
+        hyp("cellsize_rand#%d" % i, body_cellsize, cellsize_cases(), 12000 if th else 1200)
     return out
 
 
